@@ -50,6 +50,8 @@ type listCfg struct {
 	// Tok: the shape of the element values ("" = strings; "slice", "map", "struct" = values Go cannot
 	// compare with ==, each still carrying its own fresh token)
 	Tok string `json:"element_shape,omitempty"`
+	// PolRej: the push policy rejects every third fresh token, each time with the very same error value
+	PolRej bool `json:"push_policy_rejects_every_third,omitempty"`
 }
 
 func (c listCfg) String() string {
@@ -68,6 +70,9 @@ func (c listCfg) String() string {
 	}
 	if c.Tok != "" {
 		s += " elements=" + c.Tok
+	}
+	if c.PolRej {
+		s += " policy-rejects-every-third"
 	}
 	return s
 }
@@ -100,6 +105,24 @@ func (c listCfg) build() *listInst {
 	}
 	if c.Pol {
 		s.SetPushPolicy(func(...any) error { return nil })
+	}
+	if c.PolRej {
+		rej := func(v any) bool {
+			var n int
+			if str, ok := v.(string); ok {
+				if _, err := fmt.Sscanf(str, "t%d", &n); err == nil {
+					return n%3 == 0
+				}
+			}
+			return false
+		}
+		s.SetPushPolicy(func(x ...any) error {
+			if rej(x[0]) {
+				return errCat // one sentinel value, whichever value is turned away
+			}
+			return nil
+		})
+		m.reject = rej
 	}
 	if c.Deco {
 		decorate(s).SetErr(errCat).SetValidityPolicy(func(...any) error { return errCat })
@@ -412,15 +435,15 @@ func c01Configs(c *Ctx) []listCfg {
 						if cp > 0 {
 							ml = cp + 1 // growth is attempted on a full stack too: the model drops the surplus
 						}
-						out = append(out, listCfg{k, fifo, cp, neg, fwd, ml, false, false, false, 0, ""})
+						out = append(out, listCfg{k, fifo, cp, neg, fwd, ml, false, false, false, 0, "", false})
 						if neg == fwd {
-							out = append(out, listCfg{k, fifo, cp, neg, fwd, ml, neg, false, true, 0, ""})
+							out = append(out, listCfg{k, fifo, cp, neg, fwd, ml, neg, false, true, 0, "", false})
 						}
 						if !neg && !fwd {
 							// the same histories through the locking paths and the push-policy path
-							out = append(out, listCfg{k, fifo, cp, neg, fwd, ml, true, false, false, 0, ""}, listCfg{k, fifo, cp, neg, fwd, ml, true, true, false, 0, ""})
+							out = append(out, listCfg{k, fifo, cp, neg, fwd, ml, true, false, false, 0, "", false}, listCfg{k, fifo, cp, neg, fwd, ml, true, true, false, 0, "", false})
 							if !c.Quick() {
-								out = append(out, listCfg{k, fifo, cp, neg, fwd, ml, false, true, false, 0, ""})
+								out = append(out, listCfg{k, fifo, cp, neg, fwd, ml, false, true, false, 0, "", false})
 							}
 						}
 					}
@@ -437,6 +460,17 @@ func c01Configs(c *Ctx) []listCfg {
 		out = append(out, listCfg{Kind: kindNames[i%5], FIFO: i%2 == 1, MaxL: n + 3, Prefill: n},
 			listCfg{Kind: kindNames[(i+2)%5], FIFO: i%2 == 0, Cap: n + 2, Neg: true, Fwd: true, MaxL: n + 3, Prefill: n, Mtx: i%2 == 0})
 	}
+	// a push policy that turns some values away (a batch stops at the first one; an error stays on record
+	// until the next one replaces it)
+	for _, fifo := range []bool{false, true} {
+		for _, cp := range []int{0, capk} {
+			ml := maxL
+			if cp > 0 {
+				ml = cp + 1
+			}
+			out = append(out, listCfg{Kind: kindNames[ml%5], FIFO: fifo, Cap: cp, MaxL: ml, PolRej: true}, listCfg{Kind: "LIST", FIFO: fifo, Cap: cp, MaxL: ml, PolRej: true, Mtx: true, Neg: true})
+		}
+	}
 	// element values Go's == cannot compare (slices, maps, structs holding one): the list operations must
 	// not care what an element is
 	for i, tok := range []string{"slice", "map", "struct"} {
@@ -445,7 +479,7 @@ func c01Configs(c *Ctx) []listCfg {
 	}
 	// capacities at the edge of int (the stored limit is k+1): the stack must simply never fill up
 	for _, cp := range []int{math.MaxInt, math.MaxInt - 1, 1 << 32, -1, -2, -7, math.MinInt} {
-		out = append(out, listCfg{"LIST", false, cp, false, false, 2, false, false, false, 0, ""}, listCfg{"OR", true, cp, true, true, 2, false, true, false, 0, ""})
+		out = append(out, listCfg{"LIST", false, cp, false, false, 2, false, false, false, 0, "", false}, listCfg{"OR", true, cp, true, true, 2, false, true, false, 0, "", false})
 	}
 	return out
 }
